@@ -164,6 +164,8 @@ def run():
         ck.coverage["translator_errors"] = terr
     G.set_tables(tinfo["pratt"] if "error" not in tinfo["pratt"] else None, tinfo["doc"] if "error" not in tinfo["doc"] else None)
     pr = ck.prove()
+    if not pr["ok"]:
+        ck.coverage["proof_failed"] = {"failed": pr.get("failed"), "error": (pr.get("error") or "")[:400]}
     from . import c02_streams as S
     import time
     tm = {}
